@@ -531,10 +531,12 @@ class StokesLandscape(Landscape):
 
         Returns:
             The 1-dimensional integer indices associated to the pixel coordinates. The data type is
-            int32, unless the landscape largest index would overflow, in which case it is int64.
+            int32, unless the number of pixels would overflow, in which case it is int64 (the
+            dimensions and the strides, which are at most the number of pixels, are compared and
+            multiplied with the indices, so they must be representable too).
         """
         dtype: DTypeLike
-        if len(self) - 1 <= np.iinfo(np.iinfo(np.int32)).max:
+        if len(self) <= np.iinfo(np.int32).max:
             dtype = np.int32
         else:
             dtype = np.int64
